@@ -2,6 +2,8 @@ RT = "crates/tower-resilience-retry/src/"
 AD = "crates/tower-resilience-adaptive/src/"
 CORE = "crates/tower-resilience-core/src/"
 NOOP = ""
+# every atomic step on the limit (whatever the operation) must re-establish min <= limit <= max
+LIMIT_ANY = "  // #limit_stays_within_bounds [C13,C08]"
 WITHDRAW_CAS = "if ret.is_ok() { g = GB { granted: g.granted + 1, deposited: g.deposited }; vx_grants = vx_grants + 1; }   // #withdrawal_accounted_exactly_when_the_cas_succeeds [C08]"
 DEPOSIT_STORE = "g = GB { granted: g.granted, deposited: g.deposited + 1 };   // #deposit_is_one_atomic_step_within_max [C08]"
 DEPOSIT_CAS = "if ret.is_ok() { g = GB { granted: g.granted, deposited: g.deposited + 1 }; }   // #deposit_is_one_atomic_step_within_max [C08]"
@@ -23,7 +25,7 @@ UNIT = dict(
         "Vegas::adjust_limit": dict(file="alg", rules=[
             ("R14", "queue_estimate", ["smoothed_rtt", "min_rtt", "current_limit"]),
             ("R7", [NOOP, NOOP, NOOP, NOOP, "  // #limit_stays_within_bounds [C13]"])]),
-        "Vegas::record_failure@ConcurrencyAlgorithm": dict(file="alg", rules=[("R7", [NOOP, "  // #limit_stays_within_bounds [C13]"])]),
+        "Vegas::record_failure@ConcurrencyAlgorithm": dict(file="alg", rules=[("R7", "  // #limit_stays_within_bounds [C13]")]),
         "Vegas::limit@ConcurrencyAlgorithm": dict(file="alg", rules=[("R7", [NOOP])]),
         "Aimd::record_failure@ConcurrencyAlgorithm": dict(file="alg"),
         "Aimd::limit@ConcurrencyAlgorithm": dict(file="alg"),
@@ -31,12 +33,12 @@ UNIT = dict(
             ("sub", "R7-new", r"AtomicUsize::new\(initial\)", "AtomicUsize::new(Ghost(config), initial, Tracked(()))", 1),
         ]),
         "AimdController::limit": dict(file="aimd", rules=[("R7", [NOOP])]),
-        "AimdController::record_success": dict(file="aimd", rules=[("R7", [NOOP, "  // #limit_stays_within_bounds [C13,C08]"])]),
+        "AimdController::record_success": dict(file="aimd", rules=[("R7", LIMIT_ANY)]),
         "AimdController::record_failure": dict(file="aimd", rules=[
             ("R14", "decreased", ["current", "self.config.decrease_factor"]),
-            ("R7", [NOOP, "  // #limit_stays_within_bounds [C13,C08]"])]),
-        "AimdController::record_successes": dict(file="aimd", rules=[("R7", [NOOP, "  // #limit_stays_within_bounds [C13,C08]"])]),
-        "AimdController::reset": dict(file="aimd", rules=[("R7", ["  // #limit_stays_within_bounds [C13,C08]"])]),
+            ("R7", LIMIT_ANY)]),
+        "AimdController::record_successes": dict(file="aimd", rules=[("R7", LIMIT_ANY)]),
+        "AimdController::reset": dict(file="aimd", rules=[("R7", LIMIT_ANY)]),
         "TokenBucketBudget::new": dict(rules=[
             ("sub", "R7-new", r"AtomicU64::new\(\(initial_tokens as u64\) \* SCALE\)",
              "AtomicU64::new(Ghost((((max_tokens as u64) * SCALE) as u64, Ghost((initial_tokens * 1000) as nat))), (initial_tokens as u64) * SCALE, Tracked(GB { granted: 0, deposited: 0 }))", 1),
